@@ -3,7 +3,7 @@ R-SEL / R-IDFLOW (C19), R-THREAD (C20) (DESIGN §5.C, §5.F)."""
 import ast
 
 from . import rule
-from ..frontend import AnalysisError, norm, is_property
+from ..frontend import AnalysisError, norm, is_property, is_static, is_classmethod
 from ..report import Finding, RuleResult
 from ..interp import Cx
 from ..astutil import set_parents
@@ -2388,6 +2388,80 @@ def _converted_duration(t):
     return ".to(" in t and (".magnitude" in t or ".m" in t.split(".to(")[-1]) and any(f"u.{x}" in t for x in _TIME_UNITS)
 
 
+def _noise_absorbed(e):
+    """every unit conversion `.to(…)` of the expression lies inside a round(…, n) / timedelta(…): rounding *before* the
+    conversion leaves the noise of the conversion in the result"""
+    def inside(n):
+        for r in ast.walk(e):
+            if isinstance(r, ast.Call) and norm(r.func).split(".")[-1] in ("round", "timedelta") and r is not n \
+                    and any(x is n for a in list(r.args) + [k.value for k in r.keywords] for x in ast.walk(a)):
+                return True
+        return False
+    tos = [n for n in ast.walk(e) if isinstance(n, ast.Call) and isinstance(n.func, ast.Attribute) and n.func.attr == "to"]
+    return bool(tos) and all(inside(n) for n in tos)
+
+
+def _record_rest_zero_tests(pm, cls, fn, trunc, trunc_names):
+    from ..astutil import expansions, _bind_call, clone, substitute_stmt, fold_static, fully_expanded
+    out = []
+    fields = [b.target.id for b in cls.body if isinstance(b, ast.AnnAssign) and isinstance(b.target, ast.Name)]
+    # the field(s) that receive `x - trunc`
+    rest_fields = set()
+    for k in [x for x in ast.walk(fn) if isinstance(x, ast.Call) and isinstance(x.func, ast.Name)
+              and x.func.id in ("cls", cls.name)]:
+        for i, a in enumerate(k.args):
+            a2 = fully_expanded(a, fn)
+            if i < len(fields) and isinstance(a2, ast.BinOp) and isinstance(a2.op, ast.Sub) and any(
+                    isinstance(x, ast.Call) and norm(x.func) == norm(trunc.func) for x in ast.walk(a2.right)):
+                rest_fields.add(fields[i])
+            elif i < len(fields) and isinstance(a, ast.BinOp) and isinstance(a.op, ast.Sub) \
+                    and isinstance(a.right, ast.Name) and a.right.id in trunc_names:
+                rest_fields.add(fields[i])
+    if not rest_fields:
+        return out
+    askers = {}
+    for m in [x for x in cls.body if isinstance(x, ast.FunctionDef) and x is not fn]:
+        for t_ in ast.walk(m):
+            if isinstance(t_, ast.Compare) and len(t_.ops) == 1 and isinstance(t_.left, ast.Attribute) \
+                    and norm(t_.left.value) == "self" and t_.left.attr in rest_fields \
+                    and isinstance(t_.ops[0], (ast.Gt, ast.NotEq, ast.GtE)) \
+                    and isinstance(t_.comparators[0], ast.Constant) and t_.comparators[0].value == 0:
+                askers[m.name] = t_
+    if not askers:
+        return out
+    for mod, (rel, tree, _) in sorted(pm.modules.items()):
+        for caller in [n for n in ast.walk(tree) if isinstance(n, ast.FunctionDef)]:
+            for at in [x for x in ast.walk(caller) if isinstance(x, ast.Attribute) and x.attr in askers]:
+                call = fully_expanded(at.value, caller)
+                if not (isinstance(call, ast.Call) and isinstance(call.func, ast.Attribute) and call.func.attr == fn.name
+                        and norm(call.func.value) in (cls.name, "cls")):
+                    continue
+                hv = clone(fn)
+                m_ = _bind_call(fn, call)
+                hv.body = [substitute_stmt(b, m_) for b in hv.body]
+                fold_static(hv)
+                for n_ in ast.walk(hv):
+                    for ch in ast.iter_child_nodes(n_):
+                        ch._parent = n_
+                tr = [x for x in ast.walk(hv) if isinstance(x, ast.Call) and norm(x.func) == norm(trunc.func)]
+                for x in tr:
+                    arg = x.args[0]
+                    # the duration whose remainder is kept: through the round() that only protects the truncation
+                    while isinstance(arg, ast.Call) and norm(arg.func) == "round" and arg.args:
+                        arg = arg.args[0]
+                    noisy = [a_ for a_ in expansions(arg, hv) if _converted_duration(norm(a_)) and not _noise_absorbed(a_)]
+                    if noisy:
+                        pc = getattr(caller, "_parent", None)
+                        q = f"{pc.name}.{caller.name}" if isinstance(pc, ast.ClassDef) else caller.name
+                        out.append(Finding(
+                            "R-HOURNOISE", f"{q} :: remainder of a converted duration compared with 0",
+                            f"{q} asks `{cls.name}.{fn.name}(…).{at.attr}`, which tests `{norm(askers[at.attr])}` on the "
+                            f"remainder `x - {norm(trunc.func)}(…)` of `{norm(noisy[0])[:80]}`: the unit conversion is the last "
+                            f"step, so 3 600 000 ms leaves a remainder of 2.2e-16 where 1 hour leaves 0 and the answer differs "
+                            f"by one hour with the unit the duration was typed in", rel, at.lineno, q))
+    return out
+
+
 @rule("R-REST")
 def r_rest(E):
     pm = E.pm
@@ -2410,6 +2484,8 @@ def r_rest(E):
                 h = pm.package_function_finder()(c.func.id)
             elif finder is not None and isinstance(c.func, ast.Attribute) and norm(c.func.value) == "self":
                 h = finder(c.func.attr)
+            elif isinstance(c.func, ast.Attribute) and isinstance(c.func.value, ast.Name):
+                h = pm.package_class_method_finder()(c.func.value.id, c.func.attr)
             if h is not None and h.name not in seen:
                 seen.add(h.name)
                 # read in the caller's terms: a duration converted by the caller and handed over as an argument is still
@@ -2419,6 +2495,8 @@ def r_rest(E):
                     m_ = {k: fully_expanded(v, fn0) for k, v in _bind_call(h, c).items()}
                     hv = _cln(h)
                     hv.body = [_sbs(b, m_) for b in hv.body]
+                    from ..astutil import fold_static as _fold
+                    _fold(hv)
                     for n_ in ast.walk(hv):
                         for ch in ast.iter_child_nodes(n_):
                             ch._parent = n_
@@ -2497,7 +2575,7 @@ def r_hournoise(E):
                                     "so the ceiling / floor jumps by one at exact boundaries and depends on the unit the "
                                     "input was typed in; the noise is absorbed first (round(x, n), timedelta) — unless the "
                                     "part cut off is used as well (x - floor(x)), which makes the result continuous")
-    from ..astutil import fully_expanded
+    from ..astutil import fully_expanded, expansions
     scanned = 0
     for mod, (rel, tree, src) in sorted(pm.modules.items()):
         if not (rel.startswith("efootprint/core") or rel.startswith("efootprint/abstract_modeling_classes")
@@ -2509,17 +2587,25 @@ def r_hournoise(E):
                 f = norm(c.func)
                 if f not in ("math.ceil", "math.floor", "int", "np.ceil", "np.floor", "math.trunc") or not c.args:
                     continue
-                t = norm(fully_expanded(c.args[0], fn))
-                if not _converted_duration(t):
+                # (a duration refined under a condition — `x = d.to(u.hour)`, `if n is not None: x = round(x, n)` — is read
+                # once per definition: a converted duration if any of them is, absorbed only if every such one is)
+                alts = [a_ for a_ in (norm(x_) for x_ in expansions(c.args[0], fn)) if _converted_duration(a_)]
+                if not alts:
                     continue
+                t = alts[0]
+                # (floor(round(x, n)): the remainder is taken from x)
+                inner = c.args[0]
+                while isinstance(inner, ast.Call) and norm(inner.func) == "round" and inner.args:
+                    inner = inner.args[0]
+                peeled = [norm(x_) for x_ in expansions(inner, fn)] if inner is not c.args[0] else []
                 res.instances += 1
-                absorbed = "round(" in t or "timedelta(" in t
+                absorbed = all(_noise_absorbed(x_) for x_ in expansions(c.args[0], fn) if _converted_duration(norm(x_)))
                 # continuous use: the remainder `x - floor(x)` is used in the same function
                 par = getattr(c, "_parent", None)
                 names = {tg.id for tg in par.targets if isinstance(tg, ast.Name)} if isinstance(par, ast.Assign) and par.value is c else set()
                 rest_used = any(isinstance(b, ast.BinOp) and isinstance(b.op, ast.Sub)
                                 and (b.right is c or (isinstance(b.right, ast.Name) and b.right.id in names))
-                                and norm(fully_expanded(b.left, fn)) == t for b in ast.walk(fn))
+                                and any(norm(x_) in alts + peeled for x_ in expansions(b.left, fn)) for b in ast.walk(fn))
                 cls = getattr(fn, "_parent", None)
                 q = f"{cls.name}.{fn.name}" if isinstance(cls, ast.ClassDef) else fn.name
                 if rest_used and not absorbed:
@@ -2543,6 +2629,12 @@ def r_hournoise(E):
                             f"same event typed in hours — and an autoscaling server rounds that hour up to a whole instance",
                             rel, zero_tests[0].lineno, q))
                         continue
+                if rest_used and isinstance(cls, ast.ClassDef) and (is_static(fn) or is_classmethod(fn)):
+                    # the remainder handed on in a record (`cls(full, x - full)`) whose own methods compare it with 0: each
+                    # caller that asks the record that question must have had the noise absorbed on its path (the helper
+                    # read with that caller's arguments)
+                    for fd in _record_rest_zero_tests(pm, cls, fn, c, names):
+                        res.findings.append(fd)
                 if absorbed or rest_used:
                     if len(res.samples) < 5:
                         res.samples.append({"site": q, "rounding": norm(c)[:70],
